@@ -53,7 +53,7 @@ class Prepared:
 
 class Outcome:
     __slots__ = ("status", "exc", "hits", "real_windows", "aligned", "model_windows", "verdict", "why",
-                 "found_real", "found_model", "regex")
+                 "found_real", "found_model", "regex", "model_unsupported")
 
     def __init__(self):
         self.status = "ok"
@@ -67,6 +67,7 @@ class Outcome:
         self.found_real = False
         self.found_model = False
         self.regex = None
+        self.model_unsupported = None
 
 
 def flags_of(doc: dict):
@@ -98,22 +99,32 @@ def model_windows(doc: dict, insts, quirks=frozenset()):
     return M.Matcher(insts, mn, op, quirks).windows(root)
 
 
-def evaluate(ws: real.Workspace, prep: Prepared, rule_text: str, macros=None, quirks=frozenset()) -> Outcome:
+def evaluate(ws: real.Workspace, prep: Prepared, rule_text: str, macros=None, quirks=frozenset(), require_model=True) -> Outcome:
     """Run real (all matches, full text) and the model; fill in an Outcome."""
     o = Outcome()
     doc = yaml.safe_load(rule_text)
-    o.model_windows = model_windows(doc, prep.expect, quirks)   # may raise Unsupported
+    try:
+        o.model_windows = model_windows(doc, prep.expect, quirks)
+    except M.Unsupported as e:
+        if require_model:
+            raise
+        o.model_unsupported = str(e)
     o.found_model = bool(o.model_windows)
     rp = ws.write("rule.yaml", rule_text)
     r = real.match(rp, prep.path, ret="list", search="all", only_addr=False, macros=macros)
     if r[0] != "ok":
         o.status, o.exc = "exc", (r[1], r[2])
+        if r[1] == "TimeoutError" or "timeout" in r[2].lower() or "timed out" in r[2].lower():
+            # JASM's own 60 s regex budget was exhausted (nested quantifiers): no verdict either way
+            o.status, o.verdict, o.why = "timeout", "inconclusive", "regex engine timeout"
+            return o
         o.verdict, o.why = "disagree", f"real raised {r[1]}: {r[2]} on a rule the model accepts"
         return o
     o.hits, o.regex = list(r[1]), r[2]
     o.found_real = bool(o.hits)
     o.real_windows = locate(prep, o.hits)
-    compare(o)
+    if o.model_unsupported is None:
+        compare(o)
     return o
 
 
